@@ -46,6 +46,7 @@ type PeerSpec struct {
 	Honest bool   `json:"honest"`
 	Late   bool   `json:"connects_after_first_drop,omitempty"`
 	// long-chain stage
+	HookAt    int64   `json:"connected_by_the_gap_hook_at,omitempty"` // class "gap": connected by the harness inside the verify/apply window of that height
 	LateAfter int     `json:"connects_after_n_error_drops,omitempty"` // with Late: how many peers the node must have dropped for an error first (default 1)
 	Silent    bool    `json:"never_answers,omitempty"`
 	Wave      int     `json:"wave,omitempty"`     // > 0: connects with that wave ...
@@ -63,6 +64,7 @@ type Scenario struct {
 	Tier         string     `json:"tier"`
 	Class        string     `json:"class"`
 	Variant      string     `json:"variant,omitempty"`
+	GapHeights   []int64    `json:"gap_heights,omitempty"` // class "gap": heights whose deliverer is removed between verification and application
 	Version      string     `json:"reactor_version"`
 	Chain        ChainSpec  `json:"chain"`
 	First        int64      `json:"first_height"`
@@ -93,11 +95,11 @@ func (p *PeerSpec) beh(h int64) BehAt {
 }
 
 // classOf fixes the class of every case index (fixed-length lists per tier).
-var classPattern = []string{"control", "tip", "quorum", "mixed", "nilfork", "replica", "inflated", "second", "tip", "mixed",
-	"control", "quorum", "replica", "inflated", "nilfork", "second", "tip", "mixed", "quorum", "second"}
+var classPattern = []string{"control", "tip", "quorum", "mixed", "nilfork", "replica", "inflated", "second", "tip", "gap",
+	"control", "quorum", "replica", "inflated", "nilfork", "second", "gap", "mixed", "quorum", "second"}
 
 // the quick tier's v1 / v2 cases
-var otherVersionsPattern = []string{"quorum", "second", "replica", "quorum", "second", "nilfork", "tip", "replica", "quorum", "second"}
+var otherVersionsPattern = []string{"quorum", "second", "replica", "gap", "second", "nilfork", "tip", "replica", "quorum", "second"}
 
 // The deciding target is v0.  The same peers also drive v1 and v2: a few cases of the boundary /
 // second-block / fork classes in the quick tier, the whole pattern in the thorough tier.
@@ -865,6 +867,35 @@ func genScenario(c *verdict.Ctx, idx int) (*Scenario, *world) {
 		sc.Peers = append(sc.Peers, p)
 		if sc.NodeStart >= g-1 {
 			sc.NodeStart = 0
+		}
+	case "gap":
+		// Check-then-use: between the moment the node has verified block H (commit of H+1 verified,
+		// ValidateBlock passed) and the moment it saves / applies it, the harness removes the peer that
+		// delivered H from the node's switch (as a timeout or an error would) and lets a lying peer answer
+		// the re-issued request for H with another well-formed block that is valid against the node's
+		// state (other transactions; no signature needed, H's commit lives in H+1).  "nil" variant: nobody
+		// answers, the requester's slot is just empty.  The node must save and execute the block whose
+		// hash the verified commit covers.
+		sc.Peers = append(sc.Peers, honest("hA", T))
+		lo := w.first
+		if sc.NodeStart > 0 {
+			lo = sc.NodeStart + 1
+		}
+		g1 := lo + 1 + r.Int63n(T-2-lo)
+		sc.GapHeights = []int64{g1}
+		if g2 := g1 + 3 + r.Int63n(4); g2 <= T-2 && r.Intn(2) == 0 {
+			sc.GapHeights = append(sc.GapHeights, g2)
+		}
+		sc.Variant = "substitute"
+		if r.Intn(4) == 0 {
+			sc.Variant = "nil"
+		}
+		for i, g := range sc.GapHeights {
+			if sc.Variant == "nil" {
+				break
+			}
+			sc.Peers = append(sc.Peers, PeerSpec{Name: fmt.Sprintf("liarZ%d", i), Base: w.first, Height: T, Late: true, LateAfter: 1 << 30, HookAt: g,
+				Beh: []BehAt{{H: g, Kind: "wrongTxs"}}})
 		}
 	case "second":
 		// The bad block is the SECOND of the verified pair and comes from another peer than the first:
